@@ -297,7 +297,12 @@ func libraryServer(c *core.Ctx, r *core.Rand, i int) {
 	c.Distinct(core.Hash64(label))
 	want, wantOK := highestCommon(C, S)
 	if o.dialErr != nil {
-		// the server may reject the 1.1 discovery message itself; the property is silent on that case
+		// a server that does not speak 1.1 rejects the discovery message itself (it is sent under a 1.1 header); the
+		// property is silent on that case. One that does speak 1.1 answers it, and a common version must be adopted.
+		if has(S, kmip.V1_1) && wantOK {
+			c.Violation("C13:dial-fails:library-server", fmt.Sprintf("Dial fails (%v) against the library's own server, which speaks 1.1 and shares %v with the client (%s)", o.dialErr, want, label), nil)
+			return
+		}
 		c.Count("library_server_dial_errors", 1)
 		return
 	}
